@@ -18,7 +18,7 @@ class Ctx:
 
 deep = len(sys.argv) > 1 and sys.argv[1] == 'deep'
 n = 0
-for label, actions, conf, seed in hdl.scenario_set(Ctx(), deep):
+for label, actions, conf, seed, skip in hdl.scenario_set(Ctx(), deep):
     logs, problems = hdl.record(actions, conf, seed)
     n += 1
 cov.stop()
